@@ -16,7 +16,7 @@ AF4, AF6 = int(socket.AF_INET), int(socket.AF_INET6)
 V4S = ['192.0.2.10', '10.1.2.3', '127.0.0.1', '203.0.113.255']
 V6S = ['2001:db8::1', '::1', 'fe80::1234:5678:9abc:def0', '2001:0db8:0000:0000:0000:ff00:0042:8329', '2001:db8:0:0:1:0:0:1', '1:2:3:4:5:6:7::', '::2:3:4:5:6:7:8', '2001:db8::', '::ffff:192.0.2.128']
 POLICY = 'Hardened OpenSSH Server v9.9 (version 1)'
-NAMES = ['host.example', 'srv-01', 'a.b.c.example.org', 'localhost', 'xn--nxasmq6b.example', 'b\u00fccher.example', 'm\u00fcnchen.example.org', '\u4f8b\u3048.example']
+NAMES = ['host.example', 'srv-01', 'a.b.c.example.org', 'localhost', 'xn--nxasmq6b.example', 'b\u00fccher.example', 'm\u00fcnchen.example.org', '\u4f8b\u3048.example', 'cafe.de', 'dead.beef', 'abc.be', 'f00d.cafe', 'a.b.c', 'deadbeef']
 
 
 def spell(host, port, spelling):
